@@ -6,6 +6,12 @@ V = os.path.dirname(os.path.dirname(os.path.abspath(__file__)))
 ids = [json.loads(l)["id"] for l in open(f"{V}/properties.jsonl")]
 
 CHECKS = {
+ "C03": dict(
+  cat="exploration", ref="DESIGN.md §4 C03",
+  technique="structure-aware mutation fuzzing (proptest-generated mutation programs over a corpus extracted from the tree: sample configs, doc snippets, test configs) with an in-target oracle on the returned diagnostic; crash/hang attribution by isolated worker processes; ddmin shrinking",
+  text="Each generated text (with its includable files present / missing / empty / malformed / unreadable / included twice) is loaded by the real parser (new_from_str, and new_from_file on scratch directories) on an 8 MiB-stack thread: it must return Ok or a miette diagnostic whose labels lie inside a file that was given, and rendering it (fancy and plain) must return; a panic, abort (stack overflow), or confirmed hang is a violation. Failures are shrunk by deleting sub-expressions. The thorough tier runs 20 M inputs.",
+  note="Bounded domain: text <= 64 KiB, nesting <= ~70; allocation failure under a 6 GiB address-space limit is counted as resource exhaustion (excluded). Nine parser defects found by this check were repaired with fix: commits; their witnesses in regress/C03 are replayed first on every run."),
+
  "C04": dict(
   cat="exploration", ref="DESIGN.md §4 C04, Appendix A.1/D",
   technique="model-based property testing: exhaustive small-scope schedule enumeration + proptest-generated configs/histories against a reference model of the layered keymap (full timestamped output equality)",
